@@ -1,6 +1,7 @@
 (** Executable model of the ICS-20 receive path of the Teleport app (property C16).
 
-    Go sources transcribed (at /repo HEAD, i.e. including the repair 6fec139 of Keeper.OnRecvPacket):
+    Go sources transcribed (at /repo HEAD, i.e. including the repairs 6fec139 — `return ack` — and e0a53b0 — no
+    conversion for a receiver whose address is not 20 bytes — of Keeper.OnRecvPacket):
       x/aggregate/ibc_middleware.go      IBCMiddleware.OnRecvPacket / OnAcknowledgementPacket; OnTimeoutPacket is
                                          inherited from the embedded *ibc.Module
       ibc/module.go                      Module: every callback forwards to the wrapped application unchanged
@@ -120,10 +121,12 @@ Record conv_msg := {
   cm_sender : bytes }.       (* bank account that is debited *)
 
 (** Which return statement of Keeper.OnRecvPacket was taken (event status: STATUS_SUCCESS only for the last). *)
-Inductive hook_path := HDecodeErr | HAmountErr | HNotRegistered | HConvertErr | HConverted.
+Inductive hook_path := HDecodeErr | HAmountErr | HNotEvmReceiver | HNotRegistered | HConvertErr | HConverted.
 
 Definition path_code (p : hook_path) : nat :=
-  match p with HDecodeErr => 1 | HAmountErr => 2 | HNotRegistered => 3 | HConvertErr => 4 | HConverted => 5 end.
+  match p with
+  | HDecodeErr => 1 | HAmountErr => 2 | HNotRegistered => 3 | HConvertErr => 4 | HConverted => 5 | HNotEvmReceiver => 6
+  end.
 (** EventIBCAggregate.Status: 1 STATUS_SUCCESS, 2 STATUS_FAILED *)
 Definition path_status (p : hook_path) : nat := match p with HConverted => 1 | _ => 2 end.
 
@@ -138,16 +141,22 @@ Section Middleware.
   Variable convert : state -> conv_msg -> outcome state.  (* Keeper.ConvertCoin on the given (cache) state *)
   Variable transfer_recv : state -> packet -> outcome (state * ack). (* the wrapped app's OnRecvPacket; never nil *)
 
+  (** `receiver, _ := sdk.AccAddressFromBech32(data.Receiver)`: the error is ignored, a failed decoding gives the
+      empty address *)
+  Definition hook_receiver (d : ftpd) : bytes :=
+    match from_bech32 (fd_receiver d) with Some r => r | None => [] end.
+
   (** the ConvertCoin message of ibc_hook.go for a decoded packet *)
   Definition hook_msg (pkt : packet) (d : ftpd) (amt : Z) : conv_msg :=
-    let receiver := match from_bech32 (fd_receiver d) with Some r => r | None => [] end in  (* error ignored *)
+    let receiver := hook_receiver d in
     {| cm_denom := ibc_denom sha256 (pk_dport pkt) (pk_dchan pkt) (fd_denom d);
        cm_amount := amt; cm_receiver := evm_addr receiver; cm_sender := receiver |}.
 
-  (** Keeper.OnRecvPacket(ctx, packet, ack), parametrised by what every path returns ([ret ack]: HEAD returns the
-      acknowledgement it was given, the code before 6fec139 returned nil).  The conversion runs on a branch of the
-      state (ctx.CacheContext()) that is written back only when ConvertCoin returns nil error. *)
-  Definition hook_gen (ret : ack -> option ack) (st : state) (pkt : packet) (a : ack)
+  (** Keeper.OnRecvPacket(ctx, packet, ack), parametrised by the two repairs: [chk20] = the test
+      `len(receiver) != common.AddressLength` of e0a53b0 is present; [ret ack] = what every path returns (HEAD returns
+      the acknowledgement it was given, the code before 6fec139 returned nil).  The conversion runs on a branch of
+      the state (ctx.CacheContext()) that is written back only when ConvertCoin returns nil error. *)
+  Definition hook_gen (chk20 : bool) (ret : ack -> option ack) (st : state) (pkt : packet) (a : ack)
     : outcome (state * option ack * hook_path) :=
     match decode (pk_data pkt) with
     | None => Ok (st, ret a, HDecodeErr)
@@ -155,6 +164,7 @@ Section Middleware.
         match parse_int (fd_amount d) with
         | None => Ok (st, ret a, HAmountErr)
         | Some amt =>
+            if chk20 && negb (Nat.eqb (length (hook_receiver d)) 20) then Ok (st, ret a, HNotEvmReceiver) else
             let m := hook_msg pkt d amt in
             (* types.IBCDenom never returns an error: that branch is dead *)
             if negb (is_registered st (cm_denom m)) then Ok (st, ret a, HNotRegistered)
@@ -167,8 +177,9 @@ Section Middleware.
         end
     end.
 
-  Definition hook := hook_gen (fun a => Some a).       (* /repo HEAD *)
-  Definition hook_old := hook_gen (fun _ => None).     (* before 6fec139: `return nil` on every path *)
+  Definition hook := hook_gen true (fun a => Some a).        (* /repo HEAD *)
+  Definition hook_v1 := hook_gen false (fun a => Some a).     (* between 6fec139 and e0a53b0: any receiver length *)
+  Definition hook_old := hook_gen false (fun _ => None).      (* before 6fec139: `return nil` on every path *)
 
   (** IBCMiddleware.OnRecvPacket: wrapped application first; an error acknowledgement is returned at once, a
       successful one is handed to the keeper hook.  Result: state, returned acknowledgement (None = nil),
@@ -188,6 +199,7 @@ Section Middleware.
     end.
 
   Definition middleware := middleware_gen hook.
+  Definition middleware_v1 := middleware_gen hook_v1.
   Definition middleware_old := middleware_gen hook_old.
 
   (** the bare transfer module seen through the same result type *)
